@@ -19,6 +19,8 @@ import QV.Lemmas.Composite
 import QV.Props.C13
 
 namespace QV.Props
+namespace C16
+open QV.Props.C13
 open QV QV.Composite
 
 section value
@@ -427,4 +429,5 @@ example : build (α := ℤ) (.mul (.add (.leaf 0) (.const .bad 0)) (.leaf 1)) = 
 example : Linear (α := ℤ) (.mul (.const .float 2) (.sub (.leaf 0) (.const .int 1))) :=
   .mul (.const _ _) (.sub (.leaf 0) (.const _ _) rfl rfl) rfl rfl rfl
 
+end C16
 end QV.Props
